@@ -10,7 +10,9 @@ two *real* threads deliver one message each, on two connections, to the connecti
 every function of node/node.py, node/peer.py and node/application.py is a scheduling point (sys.settrace); schedules:
 "thread 0 runs k lines, thread 1 runs its whole delivery, thread 0 finishes", for sampled k, in both assignments.
 Afterwards the node's output is flushed.  Judged: what was transmitted per connection equals what is transmitted when
-the two deliveries happen one after the other (in either order), and no delivery raised.
+the two deliveries happen one after the other (in either order), return values included.  A second kind of pair has an
+*application* thread as thread 1: it submits the answer to a request of connection 0 while that connection's reader
+handles the peer's DPR / DWR.
 
 Prints one JSON document: {"schedules": n, "fails": [...]}.
 """
@@ -49,7 +51,11 @@ def main():
     prefixes = {"idle": CFG + hs, "pending": CFG + hs + pending}
     pairs = [("DWR/CCR", nodegen.dwr(31, 32, "peer1.x"), nodegen.ccr(33, 34, "peer2.x")),
              ("CCR/CCR", nodegen.ccr(35, 36, "peer1.x"), nodegen.ccr(37, 38, "peer2.x")),
-             ("DWR/DWR", nodegen.dwr(39, 40, "peer1.x"), nodegen.dwr(41, 42, "peer2.x"))]
+             ("DWR/DWR", nodegen.dwr(39, 40, "peer1.x"), nodegen.dwr(41, 42, "peer2.x")),
+             # the connection's reader handling the peer's DPR (DWR) while an application thread submits the answer to a
+             # request of that very connection ("pending" state only: request 0 of application 0 came from connection 0)
+             ("DPR/answer", nodegen.dpr(43, 44, "peer1.x"), ("ans", 0, 0, 2001)),
+             ("DWR/answer", nodegen.dwr(45, 46, "peer1.x"), ("ans", 0, 0, 2001))]
 
     def setup(prefix):
         parts = [p.strip() for p in prefix.split("|")]
@@ -60,6 +66,19 @@ def main():
         return s
 
     def deliver(s, k, desc):
+        if isinstance(desc, tuple) and desc[0] == "ans":
+            # an application thread submitting its answer to the idx-th request it was handed
+            _, ai, idx, rc = desc
+            a = s.apps[ai]
+            req = [m for i, m in s.app_requests if i == ai][idx]
+
+            def go_ans():
+                try:
+                    a.send_answer(a.generate_answer(req, result_code=rc))
+                    return "ok"
+                except Exception as e:  # noqa
+                    return f"raised {type(e).__name__}"
+            return go_ans
         c = s.conns[k]
         m = Message.from_bytes(simmod.build_msg(desc))
 
@@ -71,15 +90,24 @@ def main():
                 return f"raised {type(e).__name__}"
         return go
 
-    def outcome(s, mark):
+    def outcome(s, mark, unordered=False):
         s.settle()
-        outs = sorted(l for l in s.obs[mark:] if l.startswith("OUT "))
+        per = {}
+        for l in s.obs[mark:]:
+            if l.startswith("OUT "):
+                per.setdefault(l.split(" ")[1], []).append(l)      # (per connection in wire order)
+        # (an application thread racing with the reader of the same connection: which of the two reaches the write queue first
+        # is the schedule's choice also on the unchanged tree -- look-up and queueing of an answer are separate steps -- so the
+        # order on the wire is not judged there, only what is transmitted)
+        outs = sorted((c, sorted(v) if unordered else v) for c, v in per.items())
         crashes = sorted(l for l in s.obs[mark:] if l.startswith("CRASH") or l.startswith("RAISE"))
         return outs, crashes
 
     fails, total = [], 0
     for pname, prefix in prefixes.items():
         for label, da, db in pairs:
+            if isinstance(db, tuple) and pname != "pending":
+                continue
             # the two sequential outcomes
             seq = []
             for order in ((0, 1), (1, 0)):
@@ -89,9 +117,9 @@ def main():
                 rets = [None, None]
                 for i in order:
                     rets[i] = gos[i]()
-                seq.append((rets, outcome(s, mark)))
+                seq.append((rets, outcome(s, mark, isinstance(db, tuple))))
                 s.close()
-            allowed = [x[1] for x in seq]
+            allowed = [(x[0], x[1]) for x in seq]
             # length of each delivery in lines
             nlines = []
             for k, d in ((0, da), (1, db)):
@@ -125,16 +153,16 @@ def main():
                     res = linesched.run_threads([[gos[0]], [gos[1]]], [first] * k + [second] * 100000, codes, timeout=0.2)
                     total += 1
                     rets = [r[0] if r else None for r in res]
-                    got = outcome(s, mark)
+                    got = outcome(s, mark, isinstance(db, tuple))
                     s.close()
-                    if any(r != "ok" for r in rets) or got not in allowed:
+                    if (rets, got) not in allowed:
                         fails.append({"what": "two connections' reader threads inside the node at the same time: what the peers get "
                                               "back differs from what they get when the two messages are handled one after the other "
                                               "(an answer missing, sent twice, or a delivery raising)", "kind": "race",
-                                      "line": f"{prefix} || conn 0: {da} || conn 1: {db}",
+                                      "line": f"{prefix} || thread 0 (reader of conn 0): {da} || thread 1 (reader of conn 1 / application): {db}",
                                       "schedule": f"{label} ({pname}): thread {first} preempted after {k} of {n} lines, the other runs "
                                                   "through, then it finishes",
-                                      "real": str((rets, got))[:900], "expected": str(allowed[0])[:600]})
+                                      "real": str((rets, got))[:900], "expected": str(allowed)[:900]})
                         break
                 if fails:
                     break
